@@ -54,12 +54,14 @@ def items(tier):
     for case in _cases(tier):
         n = len(case["g"])
         if tier == "quick":
-            bound = 2 if n <= 2 else 1
+            bound = 3 if n <= 2 else 2
         else:
-            bound = 3 if n <= 2 else (2 if n == 3 else 1)
+            bound = 4 if n <= 2 else (3 if n == 3 else 2)
         out.append({"case": case, "bound": bound})
-        if n <= 3 and case["jobs"] >= 2 and not case["fails"]:
-            out.append({"case": dict(case, unrelated=True), "bound": 1})
+        if n <= 3 and (case["jobs"] >= 2 or n == 1):
+            # an unrelated child (exit 0 / exit 5 / killed) whose exit is reaped by Conductor's handler at any point
+            for st in (True, 5 << 8, 9):
+                out.append({"case": dict(case, unrelated=st), "bound": 1 if n > 1 else 2})
     out.append({"kind": "kernel-semantics"})
     for case in rungrid.conformance_cases(tier):
         out.append({"case": case, "bound": 0, "conform": True})
